@@ -212,6 +212,23 @@ PROPERTIES = {
                     'that a route-level tower::Layer behaves as a wrapper (tower)'],
         assumptions=['the executable matchit model of unit enum_router (stated in its docstring); BTreeMap as a map; BoxCloneService / Oneshot call the service they wrap'],
     ),
+    'C17': dict(
+        units=['typed_rpc'],
+        canaries=['typed_rpc'],
+        extra=[validate.codegen_routes, validate.typed_rpc_roundtrip, validate.hostile_requests],
+        scope='THE HAND-WRITTEN HALF PROVED, THE GENERATOR ONLY RUN. Proved (Verus, unit typed_rpc, codecs as uninterpreted encode / decode functions, the wrapped service as a call log with an '
+              'uninterpreted reply): rpc::client::Rpc::unary sends ONE request with the caller\'s route and headers plus the codec\'s content type and the encoded message (nothing if encoding fails); '
+              'a non-success reply comes back as an error status with the reply\'s code, status-message, headers and sender; a success reply that does not decode, or a transport error, as an error status; '
+              'otherwise the decoded message under the reply\'s header; rpc::server::Rpc::{map_request, map_response, unary} hand the typed handler exactly the request\'s header and decoded message and send back its '
+              'message (encoded, with its status and headers) or its error status with code, message (as status-message) and every header intact; an undecodable request is answered with an error status and never '
+              'reaches the handler; Status::{from_error, new_with_message, internal, from_response, into_response}. BOUNDED, by execution (codegen_routes): the real generators of anemo-build run on 480 service '
+              'definitions; every generated client method sends to the route whose server arm calls the handler method of the same name, directly under the prefix the router registers.',
+        unverified=['the generators themselves (quote! / format! token streams): run on a finite family of definitions and inspected as text, never proved; definitions outside that family (other identifier shapes, more than 3 methods)',
+                    'that the generated code compiles and wires IntoRequest / ready() / the per-method layers as intended (the repository\'s own example tests do that)',
+                    'the codecs (bincode, json): uninterpreted in the proof; exercised by typed_rpc_roundtrip and hostile_requests',
+                    'that `.call(req).await` on the wrapped tower service behaves as the assumed call_and_await (one call, its reply)'],
+        assumptions=['StatusCode::is_success() is true exactly for Success (kani_wire::status_closed_set: only 200 lies in 200..=299)'],
+    ),
     'C02': dict(
         units=['wire', 'kani_wire', 'crypto', 'timeout'],
         canaries=['wire', 'streams', 'crypto', 'timeout'],
@@ -234,7 +251,6 @@ PENDING = 'within reach of the technique (DESIGN.md section 5) but its unit is n
 NOT_APPLICABLE = {
      'C08': 'shutdown: task joins, channel closure, socket release and runtime teardown at every point in time; no function-level contract expresses it and neither verifier models tokio tasks or Drop ordering (DESIGN.md section 6)',
     'C12': 'cancellation: when a remote handler is dropped relative to a caller\'s cancellation and QUIC stream credit return are scheduling + quinn flow control; nothing in reach decides a sentence of it (section 6)',
-    'C17': 'generated clients: quantifies over programs built with quote!/format! token streams; no verifier here reasons about proc-macro output (section 6)',
     'C18': 'in-flight limit: the bound is the tokio semaphore under concurrency and implicit-Drop timing of permits; Kani has no threads, Verus cannot observe drop points (section 6)',
     'C19': 'rate limit: the admitted-count bound is governor\'s GCRA over real time; only one sequential clause is in reach, which would leave the property undecided (section 6)',
 }
